@@ -181,8 +181,6 @@ package swamp
 //@   opaque
 //@ func (*swamp).notifyBucketsUpdate(s, t)
 //@   opaque
-//@ func (*swamp).sendEventToHydra(s, t, oldT, status)
-//@   opaque
 //@ func (*swamp).sendSwampInfo(s)
 //@   opaque
 //@ trusted func (github.com/hydraide/hydraide/app/core/hydra/swamp/beacon.Beacon).Add(b, t)
@@ -233,8 +231,6 @@ package swamp
 // the record is changed in any way (marked for deletion, dropped from the indexes), it is taken
 // exactly once, under the record's guard, and exactly one DELETED event is sent per removed record.
 //@ func (*swamp).notifyBucketsDelete(s, key)
-//@   opaque
-//@ func (*swamp).sendDeletedEventToClient(s, d)
 //@   opaque
 //@ trusted func (github.com/hydraide/hydraide/app/core/hydra/swamp/treasure.Treasure).BodySetForDeletion(t, guardID, by, shadow)
 //@ func (*swamp).deleteHandler(s, key, shadowDelete) (deleted)
@@ -508,3 +504,25 @@ package swamp
 //@ func New(n, closeAfterIdle, fss, eventCallback, infoCallback, closeCallback, meta) (s)
 //@   opaque
 //@   ensures s != nil
+
+// ---------------------------------------------------------------------------------------
+// The two event builders (property C19: each change is delivered once, with the right content and time):
+// while event sending is active exactly one event is handed to the callback hydra registered, none
+// otherwise; the event of a save carries exactly the saved record, the previous state and the status it
+// was called with, and no deleted record; the event of a delete carries exactly the snapshot it was given,
+// status Deleted, and no other record; the event time is the current instant in Unix NANOseconds (the
+// unit the gateway's converter expects, see its event_time clause), taken once per event.
+//@ func (*swamp).sendEventToHydra(s, t, oldT, status)
+//@   property C19
+//@   modifies s.lastInteractionTime
+//@   before s.swampEventCallback [save_event_carries_the_record_the_previous_state_and_the_status] arg0 != nil && arg0.Treasure == t && arg0.OldTreasure == oldT && isnil(arg0.DeletedTreasure) && arg0.StatusType == status && arg0.SwampName == s.name
+//@   before s.swampEventCallback [event_time_is_now_in_nanoseconds] calls("Now") > old(calls("Now")) && arg0.EventTime == U_unixnano(lastret("Now"))
+//@   ensures[one_event_while_sending_is_active] old(s.isEventSendingActive) != 0 ==> calls("s.swampEventCallback") == old(calls("s.swampEventCallback")) + 1
+//@   ensures[no_event_while_sending_is_off] old(s.isEventSendingActive) == 0 ==> calls("s.swampEventCallback") == old(calls("s.swampEventCallback"))
+//@ func (*swamp).sendDeletedEventToClient(s, d)
+//@   property C19
+//@   modifies s.lastInteractionTime
+//@   before s.swampEventCallback [delete_event_carries_exactly_the_snapshot] arg0 != nil && arg0.DeletedTreasure == d && isnil(arg0.Treasure) && isnil(arg0.OldTreasure) && arg0.StatusType == treasure.StatusDeleted && arg0.SwampName == s.name
+//@   before s.swampEventCallback [event_time_is_now_in_nanoseconds] calls("Now") > old(calls("Now")) && arg0.EventTime == U_unixnano(lastret("Now"))
+//@   ensures[one_event_while_sending_is_active] old(s.isEventSendingActive) != 0 ==> calls("s.swampEventCallback") == old(calls("s.swampEventCallback")) + 1
+//@   ensures[no_event_while_sending_is_off] old(s.isEventSendingActive) == 0 ==> calls("s.swampEventCallback") == old(calls("s.swampEventCallback"))
